@@ -39,9 +39,9 @@ class Spec(object):
     def enabled(self, worlds, mon):
         raise NotImplementedError
 
-    def project(self, k, ev):
-        """event as seen by world k of a product (None = skipped there)"""
-        return ev
+    def project(self, k, ev, run):
+        """events executed by world k of a product for the explorer's event `ev` (may be empty)"""
+        return [ev]
 
     def nontrivial(self, worlds, mon):
         return True
@@ -68,8 +68,10 @@ class Run(object):
     def step(self, ev):
         results = []
         for k, w in enumerate(self.worlds):
-            e = self.spec.project(k, ev)
-            results.append(w.step(e, snap=self.spec.snap) if e is not None else [])
+            rs = []
+            for e in self.spec.project(k, ev, self):
+                rs.extend(w.step(e, snap=self.spec.snap))
+            results.append(rs)
         viols = self.mon.observe(ev, results, self.worlds) or []
         self.hist.append(ev)
         return results, viols
